@@ -127,8 +127,19 @@ Proof. intros. apply hist_oracle_model. Qed.
 Print Assumptions C35_oracle_history_holds_on_model.
 
 Theorem C35_oracle_load_holds_on_model : forall now files init,
-  load_oracle now init (snd (load_trcs now files init [] [])) = true.
+  let s' := snd (load_trcs now files init [] []) in
+  load_oracle now init s' (latest_key s' 1) = true.
 Proof. intros. apply load_oracle_model. Qed.
+
+(** A "latest" lookup returns the greatest stored TRC of the ISD, whatever the
+    order in which the TRCs were inserted. *)
+Theorem C35_latest_is_greatest : forall s isd l,
+  latest_trc s isd = Some l ->
+  In l s /\ t_isd l = isd /\ forall t, In t s -> t_isd t = isd -> id_le t l = true.
+Proof.
+  intros s isd l L. destruct (latest_in _ _ _ L). repeat split; auto. now apply latest_max.
+Qed.
+Print Assumptions C35_latest_is_greatest.
 Print Assumptions C35_oracle_load_holds_on_model.
 
 (** Non-vacuity: store {1}; the remote has 2, 3 and a 4 with invalid signatures.
